@@ -3,6 +3,8 @@ import math
 
 DAYS_PER_MONTH = [31, 28, 31, 30, 31, 30, 31, 31, 30, 31, 30, 31]
 DAYS_EPOCH = 25569
+MIN_OADATE = -693593  # 0001-01-01
+MAX_OADATE = 2958465  # 9999-12-31
 
 
 def is_leap_year(year):
@@ -34,6 +36,8 @@ def to_oa_date(date):
 
 
 def to_date(oadate):
+    if not (MIN_OADATE <= oadate < MAX_OADATE + 1):
+        raise ValueError("day number out of range")
     # Split into whole days and the time of day in milliseconds, rounded to
     # the nearest millisecond. The float day number of a date near the year
     # 9999 carries about 30 microseconds of error; truncating instead of
